@@ -24,13 +24,15 @@ tvars == <<lvars, l, skip, viol>>
 Rec == Trace[l + 1]
 O == Rec.op
 
-ObsEnts(st) == [k \in 1..Len(st.ents) |-> [id |-> st.ents[k].id, size |-> st.ents[k].size]]
+\* (an empty payload cannot carry its id)
+NId(id, size) == IF size = 0 THEN 0 ELSE id
+ObsEnts(st) == [k \in 1..Len(st.ents) |-> [id |-> NId(st.ents[k].id, st.ents[k].size), size |-> st.ents[k].size]]
 AllOK(st) == \A k \in 1..Len(st.ents) : st.ents[k].ok /\ st.ents[k].i = st.prev + k
 
 \* what the exported API exposes (C13)
 AbstractMatches(st) ==
     /\ st.prev = prev' /\ st.last = prev' + Len(ents') /\ st.count = Len(ents')
-    /\ AllOK(st) /\ ObsEnts(st) = [k \in 1..Len(ents') |-> [id |-> ents'[k].id, size |-> ents'[k].size]]
+    /\ AllOK(st) /\ ObsEnts(st) = [k \in 1..Len(ents') |-> [id |-> NId(ents'[k].id, ents'[k].size), size |-> ents'[k].size]]
     /\ st.getNOK /\ st.containsOK
     /\ Len(st.canLTE) = Len(ents') + 1
     /\ \A k \in 1..Len(st.canLTE) : st.canLTE[k] <= prev' + k - 1 /\ st.canLTE[k] >= prev'
@@ -42,7 +44,8 @@ ViewsMatch ==
             /\ Rec.views[k].nil = views'[k].nil
             /\ (~views'[k].nil =>
                   /\ Rec.views[k].err = ""
-                  /\ [j \in 1..Len(Rec.views[k].ents) |-> [id |-> Rec.views[k].ents[j].id, size |-> Rec.views[k].ents[j].size]] = views'[k].ents
+                  /\ [j \in 1..Len(Rec.views[k].ents) |-> [id |-> NId(Rec.views[k].ents[j].id, Rec.views[k].ents[j].size), size |-> Rec.views[k].ents[j].size]]
+                       = [j \in 1..Len(views'[k].ents) |-> [id |-> NId(views'[k].ents[j].id, views'[k].ents[j].size), size |-> views'[k].ents[j].size]]
                   /\ \A j \in 1..Len(Rec.views[k].ents) : Rec.views[k].ents[j].ok))
 \* segmentation detail (drift only)
 DetailMatches(st) ==
@@ -53,16 +56,18 @@ DetailMatches(st) ==
 ImgOf(im) == [opened |-> im.state.opened, prev |-> im.state.prev, last |-> im.state.last, ents |-> im.state.ents]
 BadImages == {k \in 1..Len(Rec.images) : ~RecoverOK(ImgOf(Rec.images[k]), O, Snapshot, [prev |-> prev', ents |-> ents', synced |-> synced', bnds |-> bnds'])}
 
+\* (zero-valued arguments are omitted from the JSON records)
+Arg(name) == IF name \in DOMAIN O THEN O[name] ELSE 0
 SpecOp ==
-    IF O.op = "append" THEN DoAppend(O.size)
+    IF O.op = "append" THEN DoAppend(Arg("size"))
     ELSE IF O.op = "commit" THEN DoCommit
-    ELSE IF O.op = "commitN" THEN DoCommitN(O.i)
-    ELSE IF O.op = "removeLTE" THEN DoRemoveLTE(O.i)
-    ELSE IF O.op = "removeGTE" THEN DoRemoveGTE(IF "i" \in DOMAIN O THEN O.i ELSE 0)
-    ELSE IF O.op = "reset" THEN DoReset(IF "i" \in DOMAIN O THEN O.i ELSE 0)
+    ELSE IF O.op = "commitN" THEN DoCommitN(Arg("i"))
+    ELSE IF O.op = "removeLTE" THEN DoRemoveLTE(Arg("i"))
+    ELSE IF O.op = "removeGTE" THEN DoRemoveGTE(Arg("i"))
+    ELSE IF O.op = "reset" THEN DoReset(Arg("i"))
     ELSE IF O.op = "reopen" THEN DoReopen
     ELSE IF O.op = "crashReopen" THEN DoCrashReopen
-    ELSE IF O.op = "view" THEN DoViewAt(IF "p" \in DOMAIN O THEN O.p ELSE 0, IF "l" \in DOMAIN O THEN O.l ELSE 0)
+    ELSE IF O.op = "view" THEN DoViewAt(Arg("p"), Arg("l"))
     ELSE FALSE
 
 ResetVals ==
@@ -70,35 +75,49 @@ ResetVals ==
     /\ views' = << >> /\ nextId' = 1 /\ nops' = 0 /\ op' = [op |-> "init"] /\ res' = "ok"
     /\ pre' = [prev |-> 0, ents |-> << >>, synced |-> 0, bnds |-> {0}] /\ hist' = << >>
 
-TInit == Init /\ l = 0 /\ skip = FALSE /\ viol = {}
+TInit == Init /\ l = 0 /\ skip = "no" /\ viol = {}
 
 TStart ==
     /\ l < Len(Trace) /\ O.op = "init"
-    /\ ResetVals /\ l' = l + 1 /\ skip' = FALSE /\ UNCHANGED viol
+    /\ skip # "resync" /\ ResetVals /\ l' = l + 1 /\ skip' = "no" /\ UNCHANGED viol
 
 TSkip ==
-    /\ l < Len(Trace) /\ skip /\ O.op # "init"
+    /\ l < Len(Trace) /\ skip = "run" /\ O.op # "init"
     /\ l' = l + 1 /\ UNCHANGED <<lvars, skip, viol>>
 
+\* after a difference in segmentation detail only: adopt the observed detail and go on, so that the
+\* abstract consequences of the deviation (if any) are still judged
+TResync ==
+    /\ skip = "resync"
+    /\ LET st == Trace[l].state
+           nb == {st.bnds[k] : k \in 1..Len(st.bnds)}
+       IN /\ bnds' = nb /\ synced' = st.synced
+          /\ caps' = [b \in nb |-> IF b \in DOMAIN caps THEN caps[b] ELSE opt]
+    /\ skip' = "no"
+    /\ UNCHANGED <<prev, ents, opt, views, nextId, nops, op, res, pre, hist, l, viol>>
+
 TStep ==
-    /\ l < Len(Trace) /\ ~skip /\ O.op # "init"
+    /\ l < Len(Trace) /\ skip = "no" /\ O.op # "init"
     /\ SpecOp
     /\ l' = l + 1
     /\ LET a == AbstractMatches(Rec.state) /\ ViewsMatch
            d == DetailMatches(Rec.state)
            b == BadImages
-       IN /\ skip' = ~(a /\ d)
+       IN /\ skip' = IF ~a THEN "run" ELSE IF ~d THEN "resync" ELSE "no"
           /\ viol' = viol \cup (IF a THEN {} ELSE {<<"C13_AbstractSequence", Rec.run, Rec.seq, O.op, "">>})
                           \cup (IF a /\ ~d THEN {<<"DRIFT", Rec.run, Rec.seq, O.op, "">>} ELSE {})
                           \cup {<<"C14_RecoverOK", Rec.run, Rec.seq, Rec.images[k].point, Rec.images[k].model>> : k \in b}
 
 \* the specification cannot take the recorded operation at all (e.g. ids differ): counts as a C13 failure
 TStuck ==
-    /\ l < Len(Trace) /\ ~skip /\ O.op # "init" /\ ~ENABLED TStep
-    /\ l' = l + 1 /\ skip' = TRUE /\ UNCHANGED lvars
+    /\ l < Len(Trace) /\ skip = "no" /\ O.op # "init" /\ ~ENABLED TStep
+    /\ l' = l + 1 /\ skip' = "run" /\ UNCHANGED lvars
     /\ viol' = viol \cup {<<"C13_AbstractSequence", Rec.run, Rec.seq, O.op, "stuck">>}
 
-TNext == TStart \/ TSkip \/ TStep \/ TStuck
+DebugAt == IF "VERIF_DEBUG_AT" \in DOMAIN IOEnv THEN atoi(IOEnv.VERIF_DEBUG_AT) ELSE 0
+DebugPrint == (l = DebugAt /\ DebugAt > 0) => PrintT(<<"SPEC-STATE", ToJson([prev |-> prev, ents |-> ents, bnds |-> bnds, synced |-> synced, opt |-> opt, res |-> res, views |-> views])>>)
+
+TNext == TStart \/ TSkip \/ TResync \/ TStep \/ TStuck
 
 Report == (l = Len(Trace)) => PrintT(<<"SEGLOG-RESULT", ToJson(viol), l>>)
 =============================================================================
